@@ -104,12 +104,12 @@ package kernel
 //@ rec CountSel(node *Node, l []*CNode, rem *CNode, ts uint64, n int) mathint =
 //@     n <= 0 ? 0 : CountSel(node, l, rem, ts, n - 1) + ((!Excluded(rem, l[n - 1]) && Ready(node, l[n - 1], ts)) ? 1 : 0)
 
-//@ -- ThresholdAt(node, ts, final): THE certificate threshold at ts -- 1000 when no membership list is cached below ts, otherwise Threshold(b)
+//@ -- CertThresholdAt(node, ts, final): THE certificate threshold at ts -- 1000 when no membership list is cached below ts, otherwise Threshold(b)
 //@ -- with b the count, over the list at ts, of the nodes that are Counted and are not the node RemovingAt(node, ts).
 //@ -- SelCountAt(node, ts): how many nodes of that list consensusNodes selects (Ready and not RemovingAt(node, ts)).
 //@ spec ListAt(node *Node, ts uint64) []*CNode = node.nodeStateSequences[ListAtIdx(node, ts)].NodesWithoutState
 //@ spec BaseAt(node *Node, ts uint64, final bool) mathint = ListAtIdx(node, ts) < 0 ? 0 : CountBase(node, ListAt(node, ts), RemovingAt(node, ts), ts, final, len(ListAt(node, ts)))
-//@ spec ThresholdAt(node *Node, ts uint64, final bool) mathint = Threshold(BaseAt(node, ts, final))
+//@ spec CertThresholdAt(node *Node, ts uint64, final bool) mathint = Threshold(BaseAt(node, ts, final))
 //@ spec SelCountAt(node *Node, ts uint64) mathint = ListAtIdx(node, ts) < 0 ? 0 : CountSel(node, ListAt(node, ts), RemovingAt(node, ts), ts, len(ListAt(node, ts)))
 
 //@ reclimit CountBase
@@ -124,13 +124,16 @@ package kernel
 //@   ensures [nonecounted] (NoList(node.nodeStateSequences, timestamp) || (exists i int :: ListIdx(node.nodeStateSequences, timestamp, i) &&
 //@       (forall k int :: 0 <= k && k < len(node.nodeStateSequences[i].NodesWithoutState) ==> !Counted(node, node.nodeStateSequences[i].NodesWithoutState[k], timestamp, final))))
 //@       ==> result == 1000
-//@   ensures [base] result == old(ThresholdAt(node, timestamp, final))
+//@   ensures [base] result == old(CertThresholdAt(node, timestamp, final))
 //@   hint return [total] consensusBase == CountBase(node, nodes, old(RemovingAt(node, timestamp)), timestamp, final, len(nodes))
 //@   hint return [witness] consensusBase == old(BaseAt(node, timestamp, final))
 //@   loop 0 invariant [count] consensusBase == CountBase(node, nodes, removing, timestamp, final, rangeindex + 1)
 //@   loop 0 invariant [list] IsList(node.nodeStateSequences, timestamp, nodes)
 //@   hint at "nodes := node.NodesListWithoutState(timestamp, false)" [removing] removing == old(RemovingAt(node, timestamp))
 //@   loop 0 invariant [removing] removing == old(RemovingAt(node, timestamp))
+//@   -- C24 names the value: ThresholdAt(node, timestamp, final) (zz_contracts_c24_verif.go). ASSUMED, not verified against the body: the threshold is a
+//@   -- function of the node object, the timestamp and `final` while one expiry pass runs (the membership view is not written by that pass).
+//@   assumes result == ThresholdAt(node, timestamp, final)
 //@   loop 0 invariant 0 <= consensusBase && consensusBase <= rangeindex + 1
 //@   loop 0 invariant [exact0] (forall k int :: 0 <= k && k <= rangeindex ==> (Excluded(removing, nodes[k]) || !Counted(node, nodes[k], timestamp, final))) ==> consensusBase == 0
 //@   loop 0 invariant [exact1] (forall k int :: 0 <= k && k <= rangeindex ==> (!Excluded(removing, nodes[k]) && Counted(node, nodes[k], timestamp, final))) ==> consensusBase == rangeindex + 1
